@@ -361,6 +361,7 @@ func init() {
 }
 
 func runC04(c *rt.Ctx) {
+	soloRun(c, "size")
 	appenderSweep(c, func() []any {
 		var out []any
 		for _, v := range []size.Size{size.Size(0), size.Size(1), size.Size(1000), size.Size(1024), size.Size(1536), size.Size(1 << 60), size.Size(1<<64 - 1)} {
